@@ -277,3 +277,41 @@ def run(ctx):
     r4.check(ok, f"{db.rel}:RedunBackendDb._postprocess_new_records", "tags that have a child edit are not marked superseded after import", db.rel, pp.lineno)
     hr = db.func("RedunBackendDb.has_records")
     r4.check("self._model_pks" in src(hr), f"{db.rel}:RedunBackendDb.has_records", "existence is not checked over all transferred models", db.rel, hr.lineno)
+
+    # ---- C23.6 child-edge order survives a transfer ------------------------------------------
+    # The serialised CallNode carries its children as a plain list and import numbers them by position.  That reproduces CallEdge.call_order
+    # only if (a) the writer numbers the edges it actually records consecutively from 0 and (b) the list is exported in call_order order.
+    r6 = ctx.rule("C23.6", "CallEdge.call_order is reproduced by export + import", floor=2)
+    rcn = db.func("RedunBackendDb.record_call_node")
+    ok_a = None
+    for lp in ast.walk(rcn):
+        if isinstance(lp, ast.For) and isinstance(lp.iter, ast.Call) and call_name(lp.iter) == "enumerate" and any(isinstance(c, ast.Call) and call_name(c) == "CallEdge" for c in ast.walk(lp)):
+            idx = src(lp.target.elts[0]) if isinstance(lp.target, ast.Tuple) else None
+            for c in ast.walk(lp):
+                if isinstance(c, ast.Call) and call_name(c) == "CallEdge":
+                    co = kwarg(c, "call_order")
+                    # the edge must be added for every element of the enumerated sequence: no `if` between the loop and the add
+                    p = db.parent.get(c)
+                    conditional = False
+                    while p is not None and p is not lp:
+                        if isinstance(p, (ast.If, ast.IfExp)):
+                            conditional = True
+                        p = db.parent.get(p)
+                    ok_a = co is not None and src(co) == idx and not conditional
+    if ok_a is None:
+        raise AnalysisError("record_call_node: enumerate loop creating CallEdge rows not found", "RedunBackendDb.record_call_node")
+    r6.check(
+        ok_a,
+        f"{db.rel}:RedunBackendDb.record_call_node:call_order-contiguous",
+        "call_order is the index in the list of *all* children while edges are written only for recorded children (prov=False children are skipped): the recorded orders have gaps, "
+        "and import -- which numbers children by their position in the exported list -- stores different call_order values than the source has",
+        db.rel,
+        rcn.lineno,
+    )
+    cser = ser.func("CallNodeSerializer.serialize")
+    ch = next((v for n in ast.walk(cser) if isinstance(n, ast.Dict) for k, v in zip(n.keys, n.values) if k is not None and const_str(k) == "children"), None)
+    if ch is None:
+        raise AnalysisError("CallNodeSerializer.serialize: 'children' not found", "CallNodeSerializer.serialize")
+    ordered = any(isinstance(c, ast.Call) and call_name(c) == "sorted" and kwarg(c, "key") is not None and "call_order" in src(kwarg(c, "key")) for c in ast.walk(ch))
+    rel_ordered = any(isinstance(n, ast.Call) and call_name(n) == "relationship" and kwarg(n, "order_by") is not None and "call_order" in src(kwarg(n, "order_by")) and "CallEdge" in src(n) for n in ast.walk(db.cls("CallNode")))
+    r6.check(ordered or rel_ordered, f"{ser.rel}:CallNodeSerializer.serialize:children-order", "the exported child list is not ordered by call_order (the relationship has no order_by): the imported order depends on the row order the database happens to return", ser.rel, cser.lineno)
